@@ -446,13 +446,20 @@ func c03History(e *c03Env, r *rand.Rand, w *CaseWriter, hi int) {
 	app := e.app
 	ctx, _ := e.base.CacheContext()
 	now := ctx.BlockTime()
-	const nA, nD = 4, 2
-	denoms := []string{"histaaa", e.bond}
+	const nA, nD = 4, 3
+	// denom 2 is a near namesake of denom 0: a longer denom starting with it, or its spelling in
+	// another letter case (hold keys are address + denom; both are legal, different denoms)
+	fam := [][2]string{{"histaaa", "histaaax"}, {"Hist/AAA", "hist/aaa"}, {"hist", "hist.x"}}[hi%3]
+	denoms := []string{fam[0], e.bond, fam[1]}
 	accts := make([]sdk.AccAddress, nA)
 	// account 0..2 plain, account 3 continuous vesting in denom 0; plus the bonded pool as account 4
 	pool := authtypes.NewModuleAddress(stakingtypes.BondedPoolName)
 	for i := 0; i < nA; i++ {
 		accts[i] = addrN(5000 + hi*10 + i)
+		if i == 1 && hi%2 == 1 {
+			// a 32-byte account whose first 20 bytes are account 0's address
+			accts[i] = sdk.AccAddress(append(append([]byte{}, accts[0]...), []byte("verif32bytes")...))
+		}
 		if i == 3 {
 			ba := authtypes.NewBaseAccountWithAddress(accts[i])
 			bva, err := vesting.NewBaseVestingAccount(ba, sdk.NewCoins(sdk.NewInt64Coin(denoms[0], 600)), now.Unix()+600)
@@ -463,7 +470,8 @@ func c03History(e *c03Env, r *rand.Rand, w *CaseWriter, hi int) {
 		} else {
 			ensureAccount(app, ctx, accts[i])
 		}
-		fund(e.t, app, ctx, accts[i], sdk.NewCoins(sdk.NewInt64Coin(denoms[0], int64(500+r.Intn(1000))), sdk.NewInt64Coin(denoms[1], int64(500+r.Intn(1000)))))
+		fund(e.t, app, ctx, accts[i], sdk.NewCoins(sdk.NewInt64Coin(denoms[0], int64(500+r.Intn(1000))), sdk.NewInt64Coin(denoms[1], int64(500+r.Intn(1000))),
+			sdk.NewInt64Coin(denoms[2], int64(500+r.Intn(1000)))))
 	}
 	all := append(append([]sdk.AccAddress{}, accts...), pool)
 	idx := func(a sdk.AccAddress) int {
@@ -668,7 +676,10 @@ func c03History(e *c03Env, r *rand.Rand, w *CaseWriter, hi int) {
 	for i := range all {
 		accN[i] = fmt.Sprintf("%d%%N", i)
 	}
-	term := fmt.Sprintf("CHist %s [0%%N; 1%%N] %s %s %s %s", coqList(accN), b0, h0, u0, coqList(steps))
+	term := fmt.Sprintf("CHist %s [0%%N; 1%%N; 2%%N] %s %s %s %s", coqList(accN), b0, h0, u0, coqList(steps))
+	if len(accts[1]) == 32 {
+		w.Count("histories_with_a_32_byte_account_extending_a_20_byte_one")
+	}
 	w.Add(term, map[string]any{"history": hi, "steps": descSteps})
 	w.Count("histories")
 	w.CountN("history_steps", int64(len(steps)))
